@@ -442,16 +442,7 @@ func checkListener(c *Ctx, ce *chanEngine) {
 		}
 		c.Check(bad == "", "R4", "Drain reach", drainFn.Pos(), fmt.Sprintf("%d functions reachable, none touches the registry or quit", len(reach)), "draining "+bad+": established connections are no longer left untouched")
 		// Drain closes the drain latch and the listener
-		closesDrain := false
-		for _, fn := range withAnon(drainFn) {
-			eachInstr(fn, func(_ *ssa.BasicBlock, _ int, in ssa.Instruction) {
-				if isBuiltin(in, "close") {
-					if f, _ := chanFieldOf(callOf(in).Args[0]); f == drain {
-						closesDrain = true
-					}
-				}
-			})
-		}
+		closesDrain := len(p.closeSitesIn(drainFn, drain)) > 0
 		closesLn := false
 		eachInstr(drainFn, func(_ *ssa.BasicBlock, _ int, in ssa.Instruction) {
 			if cc := callOf(in); cc != nil && cc.IsInvoke() && cc.Method.Name() == "Close" && derivesIP(cc.Value, func(v ssa.Value) bool { f, _ := fieldAddr(v); return f == ln }, 2) {
@@ -517,15 +508,7 @@ func checkListener(c *Ctx, ce *chanEngine) {
 	var snap ssa.Value
 	var nilStore *ssa.Store
 	var rangeClose, lnClose, join, quitClose bool
-	for _, fn := range withAnon(stop) {
-		eachInstr(fn, func(_ *ssa.BasicBlock, _ int, in ssa.Instruction) {
-			if isBuiltin(in, "close") {
-				if f, _ := chanFieldOf(callOf(in).Args[0]); f == quit {
-					quitClose = true
-				}
-			}
-		})
-	}
+	quitClose = len(p.closeSitesIn(stop, quit)) > 0
 	eachInstr(stop, func(_ *ssa.BasicBlock, _ int, in ssa.Instruction) {
 		switch x := in.(type) {
 		case *ssa.UnOp:
